@@ -98,6 +98,11 @@ def cases(tier, seed):
                 if inp == "value" and form == "f_flat_map_error_fn":
                     continue
                 out.append({"name": "fn.cancel/%s/%s/%s" % (form, who, inp), "kind": "fncancel", "form": form, "who": who, "inp": inp})
+    # cancel() racing with a hand-over that the delegate refuses (it was shut down behind the library's back)
+    for layers in (["retry"], ["retry", "map"], ["map", "retry"], ["retry", "timeout"], ["throttle"], ["throttle", "retry"]):
+        for victim in ("cancel", "worker-refused"):
+            out.append({"name": "handover.refused/%s/%s" % (">".join(layers), victim), "kind": "refused", "layers": layers,
+                        "victim": victim, "resub": False, "cap": None})
     for comb in ["zip", "and", "or", "sequence", "traverse", "apply", "map", "flat_map", "flat_map_inner", "proxy", "timeout", "nocancel",
                  "zip_nocancel", "or_nocancel"]:
         out.append({"name": "comb.cancel/%s" % comb, "kind": "comb", "comb": comb})
@@ -704,8 +709,53 @@ def run_fncancel(case, res):
             end(ctx)
 
 
+def run_refused(case, res):
+    from . import c04
+
+    class Scn(c04.RefusedScenario):
+        def op(self, ctx, name, who):
+            if name == "cancel":
+                # C04 only looks at blocking; here the answer matters
+                try:
+                    r = call("cancel", ctx.f0.cancel, _tag=who)
+                except (instr.DeadlockBroken, instr.CaseAbort):
+                    raise
+                except BaseException as e:
+                    ctx.cancel_results = getattr(ctx, "cancel_results", []) + [("raised", e)]
+                    return
+                ctx.cancel_results = getattr(ctx, "cancel_results", []) + [("returned", r)]
+                return
+            return c04.RefusedScenario.op(self, ctx, name, who)
+
+        def oracle(self, ctx, res, info):
+            label = "%s placement=%s" % (self.case["name"], info.get("site"))
+            for how, v in getattr(ctx, "cancel_results", []):
+                if how == "raised":
+                    res.violation("cancel-raised/%s/refused-handover" % type(v).__name__,
+                                  "%s: cancel() raised %r while the delegate refused the hand-over of that future" % (label, v))
+                elif not isinstance(v, bool):
+                    res.violation("cancel-nonbool/refused-handover", "%s: cancel() returned %r" % (label, v))
+                elif v is True and not ctx.f0.cancelled():
+                    res.violation("cancel-true-not-cancelled/refused-handover", "%s: cancel() returned True, future is %s"
+                                  % (label, outcome_repr(outcome(ctx.f0))))
+            if not ctx.f0.done():
+                # what becomes of a future whose hand-over the delegate refused is outside C06: observed only
+                res.count("foreign.pending_after_refused_handover")
+            if info.get("hit"):
+                res.key("refused", self.case["name"], info.get("site"))
+            res.count("refused_handovers", len(LOG.select("me.submit.refused")))
+            res.sample({"stack": self.layers, "victim": self.a, "intervention": self.b, "placement": info.get("site"),
+                        "cancel": [(h, repr(v)) for h, v in getattr(ctx, "cancel_results", [])], "outcome": outcome_repr(outcome(ctx.f0))}, limit=1)
+
+    rng = random.Random("c06r/%s/%s" % (case["seed"], case["name"]))
+    b = "handover" if case["victim"] == "cancel" else "cancel"
+    Sweep(Scn(case, b), res, "vt", case["name"]).run(case["cap"], rng, per_site=2)
+
+
 def run_case(case, res):
     k = case["kind"]
+    if k == "refused":
+        return run_refused(case, res)
     if k == "fncancel":
         return run_fncancel(case, res)
     rng = random.Random("c06/%s/%s" % (case["seed"], case["name"]))
